@@ -682,6 +682,9 @@ def validate_models(tp: Template, b: Built, cfg: Cfg, rng: random.Random) -> lis
             o.status = "validated" if agree == tried else "model-mismatch"
             o.detail = {"tried": tried, "agree": agree, "mismatch": mismatch}
         out.append(o)
+        if order_bad is not None:
+            kind = f"validate-order:{be}" + ("/order-through-subquery" if "order-through-subquery" in b.flags and be == "sqlite" else "")
+            out.append(Obl(tp.name, kind, "violation", detail=order_bad))
     return out
 
 
@@ -861,9 +864,6 @@ def type_obligations(tp: Template, b: Built, cfg: Cfg, rng: random.Random) -> li
         o.status = "structural-ok" if bad is None else "structural-fail"
         o.detail = bad or {"tried": tried}
         out.append(o)
-        if order_bad is not None:
-            kind = f"validate-order:{be}" + ("/order-through-subquery" if "order-through-subquery" in b.flags and be == "sqlite" else "")
-            out.append(Obl(tp.name, kind, "violation", detail=order_bad))
     return out
 
 
